@@ -390,6 +390,10 @@ def onEvent (p : Params) (_ : Unit) (b : Book) (o : Obs) (_ : Book) : Unit × Li
     -- single jobs: the given id or one of the generator; batch items: "g:" + that
     ((), if id != s!"id{k}" && !(id.startsWith "gen") && id != s!"g:id{k}" && !(p.noIdBatch && k % 3 == 1 && id.startsWith "g:gen")
          then [s!"job {k} reached the worker function with id {id}"] else [])
+  | .ret _ _ _ (.gcollect bid items) =>
+    -- a Result of a batch carries the ID its job ran with: the worker function saw "g:" + the item's (or a generated) ID
+    let bad := if p.kind == "result" then items.filter (fun it => !(it.id.startsWith "g:")) else []
+    ((), if bad.isEmpty then [] else [s!"batch {bid}: stream entries carry the IDs {bad.map (·.id)}, which no worker function ran with (every batch job's ID starts with g:)"])
   | .crash m => ((), [s!"process crashed: {m}"])
   | _ => ((), [])
 
